@@ -480,6 +480,77 @@ def rule_r9(prog, res):
     res.share('R9', txt, 'C05', c05.rule_r11, prog, Result)
 
 
+# ------------------------------------------------------------------ R11
+_LEN_FACETS = {'max_len': 'max', 'max_str_len': 'max', 'min_len': 'min'}
+_FLIP = {ast.Lt: ast.Gt, ast.Gt: ast.Lt, ast.LtE: ast.GtE, ast.GtE: ast.LtE}
+
+
+def rule_r11(prog, res):
+    res.rule('R11', 'length facets are inclusive bounds, as xs:maxLength / '
+             'xs:minLength are in the schema')
+    n = 0
+    for mod in prog.modules.values():
+        if not (mod.relpath.startswith('spyne/model/') or
+                mod.relpath == 'spyne/protocol/_inbase.py'):
+            continue
+        for f in mod.functions.values():
+            for cmp_ in walk_no_defs(f.node):
+                if not isinstance(cmp_, ast.Compare):
+                    continue
+                operands = [cmp_.left] + list(cmp_.comparators)
+                for i, op in enumerate(cmp_.ops):
+                    l, r = operands[i], operands[i + 1]
+                    rel = None
+                    for a, b, flip in ((l, r, False), (r, l, True)):
+                        if isinstance(a, ast.Call) and call_name(a) == 'len' \
+                                and isinstance(b, ast.Attribute) and \
+                                b.attr in _LEN_FACETS:
+                            t = type(op)
+                            if t not in _FLIP:
+                                continue
+                            rel = (_FLIP[t] if flip else t, b.attr)
+                    if rel is None:
+                        continue
+                    n += 1
+                    # accept context unless the test guards a raise/False
+                    par = cmp_
+                    while not isinstance(par, ast.stmt):
+                        par = par._parent
+                    reject = isinstance(par, ast.If) and any(
+                        isinstance(x, ast.Raise) or (
+                            isinstance(x, ast.Return) and isinstance(
+                                x.value, ast.Constant) and
+                            x.value.value is False) for x in par.body)
+                    kind = _LEN_FACETS[rel[1]]
+                    want = {('max', False): ast.LtE, ('max', True): ast.Gt,
+                            ('min', False): ast.GtE, ('min', True): ast.Lt}[
+                                (kind, reject)]
+                    ok = rel[0] is want
+                    where = '%s:%d' % (mod.relpath, cmp_.lineno)
+                    res.ob('R11', where, '%s: len(...) %s %s (%s context)' % (
+                        f.qualname, rel[0].__name__, rel[1],
+                        'reject' if reject else 'accept'),
+                        'ok' if ok else 'VIOLATED')
+                    if not ok:
+                        res.finding('R11', '%s|%s|bound-not-inclusive' % (
+                            f.qualname, rel[1]), where, '%s compares the '
+                            'length with %s using %s in a%s context: a value '
+                            'whose length equals the facet is %s, while the '
+                            'schema (xs:%sLength) accepts it' % (
+                                f.qualname, rel[1], rel[0].__name__,
+                                ' reject' if reject else 'n accept',
+                                'rejected' if kind == 'max' or True else '',
+                                kind))
+    res.floor('R11', 'length facet comparisons', n, 8)
+
+
+def rule_r12(prog, res):
+    from . import c07
+    from ..report import Result
+    res.share('R12', 'every class is rendered into the schema (C07-R9)',
+              'C07', c07.rule_r9, prog, Result)
+
+
 def run(prog, res, tier):
     res.run_rule(rule_r1, prog, res)
     res.run_rule(rule_r2, prog, res)
@@ -491,12 +562,26 @@ def run(prog, res, tier):
     res.run_rule(rule_r8, prog, res)
     res.run_rule(rule_r9, prog, res)
     res.run_rule(rule_r10, prog, res)
+    res.run_rule(rule_r11, prog, res)
+    res.run_rule(rule_r12, prog, res)
 
 
 _M = 'spyne/interface/xml_schema/model.py'
 _I = 'spyne/interface/_base.py'
 
 MUTANTS = [
+    Mutant('decimal-length-exclusive', 'R11', 'fire',
+           'spyne/model/primitive/number.py',
+           in_func('Decimal.validate_string',
+                   "len(value) <= cls.Attributes.max_str_len",
+                   "len(value) < cls.Attributes.max_str_len"),
+           'bound-not-inclusive'),
+    Mutant('unicode-length-reject-form', 'R11', 'silent',
+           'spyne/protocol/_inbase.py',
+           in_func('InProtocolBase.decimal_from_unicode',
+                   "len(string) > \\\n                                                     cls_attrs.max_str_len",
+                   "not (len(string) <= cls_attrs.max_str_len)"),
+           None),
     Mutant('range-facet-rendered-by-base', 'R7', 'fire', _M,
            in_func('Tget_range_restriction_tag',
                    "prot.to_unicode(cls, cls.Attributes.ge)",
